@@ -8,6 +8,7 @@ import (
 	"math/rand"
 	"os"
 	"sort"
+	"strconv"
 	"strings"
 	"time"
 )
@@ -257,6 +258,38 @@ func excludedShape(prop string, s *scanSpec) string {
 			}
 			if (nn == 0 && np == 0) || nn < mn || nn > mx {
 				return "stale_lock_flag_early_return"
+			}
+		}
+		// c06_fatal_reap_nonmember (C06 only; model and code agree): a grace-expired tainted node is not a member of the cloud
+		// group, DeleteNodes answers NodeNotInNodeGroup and the scan ends (fatal) before the band's taints are written;
+		// check_C06_group still demands the band's exact taint count.
+		if prop == "C06" && !s.GlobalDry && !g.Opts.DryMode {
+			soft := g.Opts.SoftDeleteGracePeriodDuration()
+			for _, n := range s.Nodes {
+				if n.Labels[g.Opts.LabelKey] != g.Opts.LabelValue || n.Spec.Unschedulable || isForceTainted(n) || !isEscTainted(n) {
+					continue
+				}
+				member := false
+				for _, a := range s.Cloud {
+					if a.Name == g.Opts.CloudProviderGroupName {
+						for _, in := range a.Instances {
+							if n.Spec.ProviderID == "aws:///"+in.AZ+"/"+in.ID {
+								member = true
+							}
+						}
+					}
+				}
+				if member {
+					continue
+				}
+				for _, t := range n.Spec.Taints {
+					if t.Key == escKey {
+						if v, err := strconv.ParseInt(t.Value, 10, 64); err == nil && time.Duration(s.BaseSec-v)*time.Second >= soft-2*time.Second {
+							return "c06_fatal_reap_nonmember"
+						}
+						break
+					}
+				}
 			}
 		}
 		// zero_created_zero_lastout: registration-lag lookup with lastScaleOut = zero time and a node whose creation
